@@ -146,7 +146,7 @@ fn change(guid: Guid, sn: i64) -> CacheChange {
 /// samples (last_change_sequence_number = last, the newest sample in the RTPS history) and is matched with remote
 /// reader (1,1) of remote participant 1 (reliable or best effort), which has acknowledged nothing yet.
 fn writer_with_reader(p: &mut DcpsDomainParticipant, last: i64, reader_reliable: bool) -> (InstanceHandle, InstanceHandle) {
-    let ph = s1::new_publisher(p);
+    let ph = s1::install_publisher(p);
     let wh = s1::install_writer(p, 0, 0, "A", DataWriterQos::const_default());
     let w = &mut p.domain_participant.user_defined_publisher_list[0].data_writer_list[0];
     s1::match_reader(w, s1::remote_reader_guid(1, 1), reader_reliable);
@@ -176,9 +176,10 @@ fn waiter_state(rx: &mut OneshotReceiver<DdsResult<()>>) -> u8 {
 // @enc DcpsDomainParticipant::notify_acknowledgments
 // @enc RtpsStatefulWriter::is_change_acknowledged
 #[kani::proof]
-#[kani::unwind(4)]
+#[kani::unwind(2)]
 #[kani::stub(critical_section::acquire, super::support_cs::cs_acquire)]
 #[kani::stub(critical_section::release, super::support_cs::cs_release)]
+#[kani::stub(tracing::level_filters::LevelFilter::current, super::support_qos::tracing_off)]
 fn c03_wait_registration() {
     s1::link_drop_glue();
     let cap = sp::Capture::new();
@@ -211,19 +212,25 @@ fn c03_wait_registration() {
 
 /// Departure of the only matched reliable reader while (`pending`) or before (`!pending`) a wait_for_acknowledgments
 /// is registered; `by_reader`: SEDP disposal of the reader (remove_discovered_reader), else removal of its participant
-/// (lease expiry / SPDP disposal: remove_discovered_participant).
+/// (lease expiry / SPDP disposal / ignore_participant: remove_discovered_participant).
+/// A parked waiter is completed by `OneshotSender::send`, which consumes the sender: "the wait list is empty" is
+/// exactly "no waiter is left hanging" (completed, or dropped = answered with an error).
 fn departure(by_reader: bool, pending: bool) {
     let cap = sp::Capture::new();
     let mut p = sp::participant(&cap, 0);
     let last: i64 = kani::any();
     kani::assume(last >= 1);
-    let (ph, wh) = writer_with_reader(&mut p, last, true);
-    let (tx, mut rx) = oneshot::<DdsResult<()>>();
-    let mut tx = Some(tx);
+    let ph = s1::install_publisher(&mut p);
+    let wh = s1::install_writer(&mut p, 0, 0, "A", DataWriterQos::const_default());
+    {
+        let w = &mut p.domain_participant.user_defined_publisher_list[0].data_writer_list[0];
+        s1::match_reader(w, s1::remote_reader_guid(1, 1), true);
+        w.writer.last_change_sequence_number = last;
+    }
     if pending {
-        if let Some(t) = tx.take() {
-            p.notify_acknowledgments(&ph, &wh, t);
-        }
+        let (tx, rx) = oneshot::<DdsResult<()>>();
+        core::mem::forget(rx);
+        p.notify_acknowledgments(&ph, &wh, tx);
         assert!(
             p.domain_participant.user_defined_publisher_list[0].data_writer_list[0].wait_for_acknowledgments_notification.len() == 1,
             "C03: waiter parked behind the unacknowledging reliable reader"
@@ -242,14 +249,21 @@ fn departure(by_reader: bool, pending: bool) {
         w.writer.transport_writer.is_change_acknowledged(last),
         "C03: after the only matched reliable reader departed no reader is left unacknowledged"
     );
-    if let Some(t) = tx.take() {
-        // a wait_for_acknowledgments issued after the departure
-        p.notify_acknowledgments(&ph, &wh, t);
+    assert!(
+        w.wait_for_acknowledgments_notification.is_empty(),
+        "C03: a parked wait_for_acknowledgments is completed once the unacknowledging reader has departed"
+    );
+    if !pending {
+        // a wait_for_acknowledgments issued after the departure is answered at once (not parked)
+        let (tx, rx) = oneshot::<DdsResult<()>>();
+        core::mem::forget(rx);
+        p.notify_acknowledgments(&ph, &wh, tx);
+        assert!(
+            p.domain_participant.user_defined_publisher_list[0].data_writer_list[0].wait_for_acknowledgments_notification.is_empty(),
+            "C03: wait_for_acknowledgments after the departure is answered immediately"
+        );
     }
-    let st = waiter_state(&mut rx);
-    assert!(st == 1, "C03: wait_for_acknowledgments completes with Ok once the unacknowledging reader has departed");
     kani::cover!(true, "end reached");
-    core::mem::forget(rx);
     core::mem::forget(p);
 }
 
@@ -260,9 +274,10 @@ fn departure(by_reader: bool, pending: bool) {
 // @enc DcpsDomainParticipant::remove_discovered_participant
 // @enc DcpsDomainParticipant::notify_acknowledgments
 #[kani::proof]
-#[kani::unwind(4)]
+#[kani::unwind(2)]
 #[kani::stub(critical_section::acquire, super::support_cs::cs_acquire)]
 #[kani::stub(critical_section::release, super::support_cs::cs_release)]
+#[kani::stub(tracing::level_filters::LevelFilter::current, super::support_qos::tracing_off)]
 fn c03_departure_participant_pending__known() {
     s1::link_drop_glue();
     departure(false, true);
@@ -270,17 +285,18 @@ fn c03_departure_participant_pending__known() {
 
 // @check props=C03 tier=quick known=KF-C03-2
 // @desc KNOWN FINDING: when a matched reliable reader is deleted (SEDP disposal -> remove_discovered_reader) the DDS-level match is removed but the RTPS reader proxy stays in the writer: is_change_acknowledged(last) stays false for ever (the proxy can never acknowledge), so a parked waiter is never completed and every later wait_for_acknowledgments parks as well
-// @bounds one writer, one matched reliable reader, waiter registered before or after the disposal (symbolic); last in [1, i64::MAX]
+// @bounds one writer, one matched reliable reader, waiter parked before the disposal; last in [1, i64::MAX]
 // @assume trigger: the reader departs through SEDP disposal (remove_discovered_reader)
 // @enc DcpsDomainParticipant::remove_discovered_reader
 // @enc DcpsDomainParticipant::notify_acknowledgments
 #[kani::proof]
-#[kani::unwind(4)]
+#[kani::unwind(2)]
 #[kani::stub(critical_section::acquire, super::support_cs::cs_acquire)]
 #[kani::stub(critical_section::release, super::support_cs::cs_release)]
+#[kani::stub(tracing::level_filters::LevelFilter::current, super::support_qos::tracing_off)]
 fn c03_departure_reader_disposed__known() {
     s1::link_drop_glue();
-    departure(true, kani::any());
+    departure(true, true);
 }
 
 // @check props=C03 tier=quick
@@ -290,9 +306,10 @@ fn c03_departure_reader_disposed__known() {
 // @enc DcpsDomainParticipant::remove_discovered_participant
 // @enc DcpsDomainParticipant::notify_acknowledgments
 #[kani::proof]
-#[kani::unwind(4)]
+#[kani::unwind(2)]
 #[kani::stub(critical_section::acquire, super::support_cs::cs_acquire)]
 #[kani::stub(critical_section::release, super::support_cs::cs_release)]
+#[kani::stub(tracing::level_filters::LevelFilter::current, super::support_qos::tracing_off)]
 fn c03_departure__rest() {
     s1::link_drop_glue();
     departure(false, false);
